@@ -154,7 +154,153 @@ def units(tier, seed):
       for i in range(0, len(roots), g):
         for p in range(fam['parts']):
           us.append(dict(fam=name, n=n, roots=roots[i:i + g], part=p))
+  # wide containers: more than ten entries / integer dict keys, where lexicographic and
+  # numeric (or structural) order of the paths differ
+  for kind in WIDE_KINDS:
+    us.append(dict(fam='wide', kind=kind))
   return us
+
+
+WIDE_KINDS = ['list12', 'tuple11', 'intdict', 'negintdict', 'modlist12', 'mixed']
+
+
+def _wide_graph(kind, seed):
+  import jax.numpy as jnp
+  from flax import nnx
+
+  class Leaf(nnx.Module):
+    def __init__(self, i):
+      self.w = nnx.Param(jnp.full((2,), float(i + seed % 3)))
+      self.c = nnx.BatchStat(jnp.asarray(100 + i))
+
+  class Root(nnx.Module):
+    pass
+
+  r = Root()
+  mk = lambda i: nnx.Param(jnp.full((), float(i + 1 + seed % 3))) if i % 2 == 0 else \
+      nnx.BatchStat(jnp.full((), float(50 + i)))
+  if kind == 'list12':
+    r.items = [mk(i) for i in range(12)]
+  elif kind == 'tuple11':
+    r.items = tuple(mk(i) for i in range(11))
+  elif kind == 'intdict':
+    r.items = {10: mk(0), 2: mk(1), 1: mk(2), 33: mk(3), 4: mk(4)}
+  elif kind == 'negintdict':
+    r.items = {-1: mk(0), 3: mk(1), -10: mk(2), 0: mk(3)}
+  elif kind == 'modlist12':
+    r.layers = [Leaf(i) for i in range(12)]
+    r.layers[3].w = r.layers[10].w          # a shared Variable across positions 3 and 10
+  elif kind == 'mixed':
+    r.items = [mk(i) for i in range(11)]
+    r.d = {10: Leaf(0), 9: Leaf(1), 100: Leaf(2)}
+    r.z = r.items[10]
+  return r
+
+
+def _walk(obj, path=(), seen=None, out=None):
+  """plain-Python reading of a graph: {path: (type name, value, identity class)}"""
+  from flax import nnx
+  if seen is None:
+    seen, out = {}, {}
+  if isinstance(obj, nnx.Variable):
+    ident = seen.setdefault(id(obj), len(seen))
+    out[path] = (type(obj).__name__, np.asarray(obj.value).tolist(), ident)
+  elif isinstance(obj, nnx.Module):
+    if id(obj) in seen:
+      out[path] = ('ref', seen[id(obj)])
+      return out
+    seen[id(obj)] = len(seen)
+    for k in sorted(vars(obj)):
+      if not k.startswith('_'):
+        _walk(getattr(obj, k), path + (k,), seen, out)
+  elif isinstance(obj, (list, tuple)):
+    out[path + ('#type',)] = type(obj).__name__
+    for i, v in enumerate(obj):
+      _walk(v, path + (i,), seen, out)
+  elif isinstance(obj, dict):
+    for k in sorted(obj, key=repr):
+      _walk(obj[k], path + (k,), seen, out)
+  else:
+    out[path] = ('leaf', repr(obj))
+  return out
+
+
+def _run_wide(res, kind):
+  from flax import nnx
+  g = _wide_graph(kind, _seed())
+  before = _walk(g)
+  case = dict(kind=kind)
+
+  def chk(tag, obj, what):
+    res['evals'] += 1
+    res['transitions'] += 1
+    got = _walk(obj)
+    if got != before:
+      bad = [p for p in before if got.get(p) != before[p]][:4]
+      core.violation(res, f'wide-{tag}|{kind}', f'{what}: paths {bad} differ', case,
+                     observed=[repr(got.get(p)) for p in bad],
+                     expected=[repr(before[p]) for p in bad])
+
+  gd, st = nnx.split(g)
+  chk('roundtrip', nnx.merge(gd, st), 'merge(split(g)) is not isomorphic to g')
+  chk('untouched', g, 'split modified g')
+  gd, a, b = nnx.split(g, nnx.Param, ...)
+  chk('filtered', nnx.merge(gd, a, b), 'merge of filtered states')
+  chk('filtered-rev', nnx.merge(gd, b, a), 'merge of filtered states in the other order')
+  chk('clone', nnx.clone(g), 'clone is not isomorphic to g')
+  # state lists every Variable once under its first path in sorted order
+  flat = list(nnx.to_flat_state(nnx.state(g)))
+  paths = [tuple(p) for p, _ in flat]
+  want = {}
+  for p, v in before.items():
+    if isinstance(v, tuple) and len(v) == 3 and v[2] not in want:
+      want[v[2]] = p
+  if sorted(map(repr, paths)) != sorted(map(repr, want.values())):
+    core.violation(res, f'wide-state-paths|{kind}', 'state does not list every Variable once '
+                   'under its first path', case, observed=list(map(repr, paths)),
+                   expected=list(map(repr, want.values())))
+  for p, v in flat:
+    if np.asarray(v.value).tolist() != before[tuple(p)][1]:
+      core.violation(res, f'wide-state-values|{kind}', f'state value at {p} is wrong', case)
+  # update with +1 keeps identity and sets exactly the addressed values
+  ids = {p: id(o) for p, o in _objs(g).items()}
+  st2 = nnx.state(g)
+  import jax
+  nnx.update(g, jax.tree.map(lambda x: x + 1, st2))
+  after = _walk(g)
+  for p, v in before.items():
+    if isinstance(v, tuple) and len(v) == 3:
+      if after[p][1] != (np.asarray(v[1]) + 1).tolist():
+        core.violation(res, f'wide-update|{kind}', f'update set a wrong value at {p}', case)
+  if {p: id(o) for p, o in _objs(g).items()} != ids:
+    core.violation(res, f'wide-update-identity|{kind}', 'update replaced objects', case)
+  res['states'] += 1
+  res['nontrivial'].append(core.h(['wide', kind]))
+  core.outcome(res, 'wide:ok')
+  res['samples'].append(dict(fam='wide', kind=kind, variables=len(flat)))
+
+
+def _objs(obj, path=(), seen=None, out=None):
+  from flax import nnx
+  if seen is None:
+    seen, out = set(), {}
+  if isinstance(obj, nnx.Variable):
+    out[path] = obj
+  elif isinstance(obj, nnx.Module):
+    if id(obj) in seen:
+      return out
+    seen.add(id(obj))
+    out[path] = obj
+    for k in sorted(vars(obj)):
+      if not k.startswith('_'):
+        _objs(getattr(obj, k), path + (k,), seen, out)
+  elif isinstance(obj, (list, tuple)):
+    for i, v in enumerate(obj):
+      _objs(v, path + (i,), seen, out)
+  elif isinstance(obj, dict):
+    for k in obj:
+      _objs(obj[k], path + (k,), seen, out)
+  return out
 
 
 def setup_worker():
@@ -170,6 +316,9 @@ def _seed():
 
 def run_unit(unit):
   res = core.new_result()
+  if unit['fam'] == 'wide':
+    _run_wide(res, unit['kind'])
+    return res
   fam = FAMILIES[unit['fam']]
   first = True
   for ri in unit['roots']:
